@@ -16,9 +16,36 @@ package entry
 
 import (
 	"encoding/binary"
+	"errors"
 
 	"github.com/olric-data/olric/pkg/storage"
 )
+
+// ErrMalformedEntry means that a byte slice is not an encoded entry.
+var ErrMalformedEntry = errors.New("malformed entry")
+
+// metadataLength is the encoded size of an entry with an empty key and an empty value:
+// KEY-LENGTH(1) + TTL(8) + Timestamp(8) + LastAccess(8) + VALUE-LENGTH(4)
+const metadataLength = 29
+
+// EncodedSize returns the size of the encoded entry that starts at buf[0]. It
+// returns ErrMalformedEntry if buf is too short to hold the entry its length
+// fields describe. Bytes after the entry are ignored.
+func EncodedSize(buf []byte) (int, error) {
+	if len(buf) < metadataLength {
+		return 0, ErrMalformedEntry
+	}
+	klen := int(buf[0])
+	if len(buf) < metadataLength+klen {
+		return 0, ErrMalformedEntry
+	}
+	vlen := binary.BigEndian.Uint32(buf[metadataLength+klen-4:])
+	size := uint64(metadataLength+klen) + uint64(vlen)
+	if uint64(len(buf)) < size {
+		return 0, ErrMalformedEntry
+	}
+	return int(size), nil
+}
 
 // In-memory layout for an entry:
 //
